@@ -250,6 +250,11 @@ var c14Shapes = []c14Shape{
 	{[]string{"before_route", "after_choose_host", "after_choose_host", "after_choose_host"}, 1},
 }
 
+type c14Oneway struct {
+	tok, vec, dv string
+	denier       int
+}
+
 func c14Engine(c *lab.Ctx) {
 	shape := c14Shapes[c.Batch%len(c14Shapes)]
 	c.Rule(fmt.Sprintf("running MOSN, chain shape by batch (this batch: receive phases %v + %d send filters); every verdict vector over the per-phase alphabets (continue, hijack, hijack with body, direct response, terminate, termination status, stop, re-match once / twice, re-choose once / twice) for chains <= 4 (sampled above) x 3 protocols, on a plain route and - when a filter answers - again on a route whose retry policy would retry the filter's status; trace checker over filter / upstream / client logs; distinct = (shape, protocol, verdict vector)", shape.phases, shape.sends))
@@ -340,6 +345,8 @@ func c14Engine(c *lab.Ctx) {
 	}
 	var wg sync.WaitGroup
 	const par = 4
+	var owMu sync.Mutex
+	var owSent []c14Oneway
 	for _, proto := range engineProtos {
 		for w := 0; w < par; w++ {
 			wg.Add(1)
@@ -552,11 +559,44 @@ func c14Engine(c *lab.Ctx) {
 					if denier < 0 && !hasStop && !mDead && !mNoRoute {
 						// forwarded normally: exactly one upstream attempt and one response
 						if len(ups) != 1 || ev.Kind != "response" {
-							c.Violation("allowed-request-forwarded", "C14/allowed-but-not-served/"+sig,
-								fmt.Sprintf("%s chain %v verdicts %v: no filter denied, yet upstream attempts=%d client=%s %d", proto, shape.phases, vec, len(ups), ev.Kind, ev.Status), wit)
+							// the statement does not promise that an allowed request is served (an upstream connection may fail, the proxy then
+							// answers itself): only a chain that keeps an allowed request away from the upstream EVERY time is the chain's doing
+							again := 0
+							for try := 0; try < 2; try++ {
+								tok2 := fmt.Sprintf("%s-again%d", tok, try)
+								req2 := reqFor(proto, key, tok2, "ok")
+								req2.Headers = append(req2.Headers, [2]string{"x-verif-v", strings.Join(vec, ",")})
+								cl2 := e.newClient(proto, fmt.Sprintf("%s-c14-again-%d-%d", proto, w, vi))
+								ev2 := cl2.do(req2)
+								cl2.close()
+								if len(e.log.upsFor(tok2)) == 1 && ev2.Kind == "response" {
+									again++
+								}
+							}
+							if again == 0 {
+								c.Violation("allowed-request-forwarded", "C14/allowed-but-not-served/"+sig,
+									fmt.Sprintf("%s chain %v verdicts %v: no filter denied, yet upstream attempts=%d client=%s %d (and the same on two further attempts)", proto, shape.phases, vec, len(ups), ev.Kind, ev.Status), wit)
+							} else {
+								c.Inconclusive(fmt.Sprintf("allowed request not served once (%s %d, upstream attempts=%d), served on repetition", ev.Kind, ev.Status, len(ups)))
+							}
 						}
 					}
 					c.Distinct(fmt.Sprintf("%d|%s|%s|%s", c.Batch%len(c14Shapes), proto, key, strings.Join(vec, "")))
+					// the ONE-WAY twin (bolt): the same verdicts on a request that expects no reply. A denied one-way request must not
+					// reach an upstream either; an allowed one is forwarded (positive control). Judged after the run, from the upstream log.
+					if proto == "bolt" && key == "f" && !hasStop && !mStop && !mDead && !mNoRoute && (denier >= 0 || vi%4 == 0) {
+						otok := "ow-" + tok
+						oreq := reqFor(proto, key, otok, "ok")
+						oreq.Headers = append(oreq.Headers, [2]string{"x-verif-v", strings.Join(vec, ",")})
+						oreq.Oneway = true
+						c.Case("c14 %s ONE-WAY shape=%v vec=%v token=%s", proto, shape.phases, vec, otok)
+						oev := cl.do(oreq)
+						if oev.Kind == "oneway-sent" {
+							owMu.Lock()
+							owSent = append(owSent, c14Oneway{tok: otok, vec: strings.Join(vec, ","), denier: denier, dv: dv})
+							owMu.Unlock()
+						}
+					}
 					if os.Getenv("VERIF_C14_ONLY") != "" {
 						fmt.Fprintf(os.Stderr, "DEBUG %v\n", wit)
 					}
@@ -568,6 +608,29 @@ func c14Engine(c *lab.Ctx) {
 		}
 	}
 	wg.Wait()
+	// one-way twins: everything has been sent and the two-way traffic that followed them on the same connections is answered
+	_, _ = e.quiesce(3 * time.Second)
+	time.Sleep(300 * time.Millisecond)
+	owDenied, owAllowedFwd := 0, 0
+	for _, o := range owSent {
+		ups := e.log.upsFor(o.tok)
+		c.Eval(1)
+		if o.denier >= 0 {
+			owDenied++
+			if len(ups) > 0 {
+				c.Violation("denied-request-never-forwarded", "C14/denied-but-forwarded/bolt-oneway/verdict="+o.dv,
+					fmt.Sprintf("bolt ONE-WAY request, chain %v verdicts %s: filter #%d answered/terminated the request (%s) but it reached an upstream (%d attempts)", shape.phases, o.vec, o.denier, o.dv, len(ups)),
+					map[string]interface{}{"proto": "bolt", "oneway": true, "chain": fmt.Sprint(shape.phases), "verdicts": o.vec, "filter_log": fmt.Sprint(c14Events(o.tok)), "upstream_attempts": len(ups)})
+			}
+			c.Distinct(fmt.Sprintf("%d|bolt-oneway|denied|%s", c.Batch%len(c14Shapes), o.vec))
+		} else if len(ups) > 0 {
+			owAllowedFwd++
+			c.Distinct(fmt.Sprintf("%d|bolt-oneway|allowed|%s", c.Batch%len(c14Shapes), o.vec))
+		}
+	}
+	c.Count("oneway-denied-judged", int64(owDenied))
+	c.Count("oneway-allowed-forwarded", int64(owAllowedFwd))
+	c.Require("allowed one-way requests are forwarded (the one-way lane works)", owAllowedFwd > 0, fmt.Sprint(owAllowedFwd))
 	c.Count("vectors", int64(len(vectors)))
 	c.Count("filter-events", c14Log.seq)
 	c.RequireAll("filter log populated", len(shape.phases) == 0 || c14Log.seq > 0, fmt.Sprint(c14Log.seq))
